@@ -917,7 +917,7 @@ def _obj_expand_antisym_eri(ctx, rule):
     fn = ctx.model.fn(EC + "Obj.expand_antisym_eri")
     V, v = NAMES["eri"], NAMES["coulomb"]
     spins = {"no spin": ("", "", "", ""), "abab": ("a", "b", "a", "b"), "abba": ("a", "b", "b", "a"), "aaaa": ("a", "a", "a", "a"),
-             "aabb": ("a", "a", "b", "b")}
+             "aabb": ("a", "a", "b", "b"), "aaba": ("a", "a", "b", "a"), "abaa": ("a", "b", "a", "a"), "baaa": ("b", "a", "a", "a")}
     for name, sp in spins.items():
         for n in (1, 2):
             for rs in (True, False):
